@@ -42,6 +42,9 @@ def tables():
 
     minv = {t: getattr(c, "MIN_DXF_VERSION_FOR_EXPORT", "AC1009") for t, c in factory.ENTITY_CLASSES.items()}
     hmin = {n: v.mindxf for n, v in HEADER_VAR_MAP.items()}
+    # custom drawing properties exist since AutoCAD 2004 (independent of ezdxf's own table)
+    hmin.setdefault("$CUSTOMPROPERTYTAG", "AC1018")
+    hmin.setdefault("$CUSTOMPROPERTY", "AC1018")
     req = dict(classes.REQ_R2004) if isinstance(classes.REQ_R2004, dict) else {n: 1 for n in classes.REQ_R2004}
     # CLASS entries are demanded only for types ezdxf itself declares as requiring one and that are not built in
     return minv, hmin, {}
